@@ -16,7 +16,7 @@ import numpy as np
 LEVEL = "exploration"
 EXHAUSTIVE = {"quick": False, "thorough": False}
 RULE = (
-    "registry of 78 call forms (arithmetic, comparisons, astype/img_as/to_trichromatic(return_image=True)/to_monochromatic, "
+    "registry of 85 call forms (arithmetic, comparisons, astype/img_as/to_trichromatic(return_image=True)/to_monochromatic, "
     "subregion/time_slice/time_interval/slice, weight, superpose, stack, append, Resize/resize/equalize_voxel_size/"
     "uniform_refinement, reduce_axis/extrude_along_axis, models, Geometry.integrate/normalize, EMD, wasserstein_distance, "
     "zeros_like/ones_like, bounding_box, random_patches, coordinate conversions, layout helpers, Image(...) built from "
@@ -142,6 +142,11 @@ def build_registry(darsia, rng):
     add("weight_int", [A], lambda: darsia.weight(A, 3))
     add("weight_image_same", [A, Wsame], lambda: darsia.weight(A, Wsame))
     add("weight_image_resized", [A, Wsmall], lambda: darsia.weight(A, Wsmall))
+    # image weights on payload-carrying images (same and other resolution)
+    add("weight_series_by_image_same", [S1, Wsame], lambda: darsia.weight(S1, Wsame))
+    add("weight_vector_by_image_same", [V1, Wsame], lambda: darsia.weight(V1, Wsame))
+    add("weight_vector_by_image_resized", [V1, Wsmall], lambda: darsia.weight(V1, Wsmall))
+    add("weight_series_by_image_resized", [S2, Wsmall], lambda: darsia.weight(S2, Wsmall))
     wt = np.array([1.0, 2.0, 3.0])
     add("weight_array_per_time", [S1, wt], lambda: darsia.weight(S1, wt))
     sup = [img2(shp, cls=darsia.ScalarImage), img2(shp, cls=darsia.ScalarImage), img2(shp, cls=darsia.ScalarImage)]
@@ -209,6 +214,16 @@ def build_registry(darsia, rng):
     add("bounding_box", [vx, mx], lambda: darsia.bounding_box(vx, padding=1, max_size=mx))
     mask = rng.random((12, 12)) > 0.3
     add("random_patches", [mask], lambda: darsia.random_patches(mask, 2, 3))
+    # many patches from a small eligible region (coinciding draws), and more patches than eligible points
+    small = np.zeros((15, 16), dtype=bool)
+    small[2:8, 3:9] = rng.random((6, 6)) > 0.2
+    add("random_patches_many_from_small_region", [small], lambda: darsia.random_patches(small, 4, 40))
+    add("random_patches_more_than_eligible", [small], lambda: darsia.random_patches(small, 3, 500))
+    block = np.zeros((30, 40), dtype=bool)
+    block[5:20, 8:24] = True
+    if rng.random() < 0.5:
+        block[int(rng.integers(5, 20)), int(rng.integers(8, 24))] = False
+    add("random_patches_coinciding_draws", [block], lambda: darsia.random_patches(block, 4, int(rng.integers(30, 60))))
     pts = rng.integers(-2, 8, size=(4, 2))
     add("cs_coordinate", [pts], lambda: A.coordinatesystem.coordinate(pts))
     cpt = rng.random((4, 2)) * 3
@@ -354,7 +369,7 @@ def run_shard(spec, R):
 
 MANIFEST = {
     "technique": "snapshot monitor (deep content snapshots of every argument, of all live operands in call chains, and of the global numpy/python RNG state) around a fixed registry of call forms; array-arithmetic oracle",
-    "level_text": "Every call form of a 78-entry registry is executed on several random operand sets of every image kind with all arguments and the global random state snapshotted before and compared after; random chains of up to five calls on a shared operand pool (results fed back, so that metadata containers shared between images become observable) snapshot the whole pool at every step. Arithmetic results are compared bitwise with raw-array arithmetic for the documented scalar types.",
+    "level_text": "Every call form of a 85-entry registry is executed on several random operand sets of every image kind with all arguments and the global random state snapshotted before and compared after; random chains of up to five calls on a shared operand pool (results fed back, so that metadata containers shared between images become observable) snapshot the whole pool at every step. Arithmetic results are compared bitwise with raw-array arithmetic for the documented scalar types.",
     "level_note": "The registry is a fixed list (functions not in it are not observed); Image.append modifies its receiver by documentation, only its argument is judged.",
     "design_ref": "DESIGN.md section 3, C17",
 }
